@@ -535,15 +535,25 @@ impl<'a, T: std::fmt::Debug> WaitingState<'a, T> {
         }
         self.prev_queue_len = queued.len() as u8;
         let mut skip_timeout = false;
+        // What other keys did only matters while this key was held. Events that are queued after
+        // the release of this key, e.g. while an earlier decision was pending, came too late.
+        let len_while_held = queued
+            .iter()
+            .position(|s| self.is_corresponding_release(&s.event))
+            .unwrap_or(queued.len());
         match cfg {
             HoldTapConfig::Default => (),
             HoldTapConfig::HoldOnOtherKeyPress => {
-                if queued.iter().any(|s| s.event.is_press()) {
+                if queued
+                    .iter()
+                    .take(len_while_held)
+                    .any(|s| s.event.is_press())
+                {
                     return Some(WaitingAction::Hold);
                 }
             }
             HoldTapConfig::PermissiveHold => {
-                let mut queued = queued.iter();
+                let mut queued = queued.iter().take(len_while_held);
                 while let Some(q) = queued.next() {
                     if q.event.is_press() {
                         let (i, j) = q.event.coord();
@@ -555,7 +565,8 @@ impl<'a, T: std::fmt::Debug> WaitingState<'a, T> {
                 }
             }
             HoldTapConfig::Custom(func) => {
-                let (waiting_action, local_skip) = (func)(QueuedIter(queued.iter()));
+                let (waiting_action, local_skip) =
+                    (func)(QueuedIter(queued.iter().take(len_while_held)));
                 if waiting_action.is_some() {
                     return waiting_action;
                 }
@@ -1046,7 +1057,7 @@ impl OneShotState {
 ///
 /// Events can be retrieved by iterating over this struct and calling [Queued::event].
 #[derive(Clone)]
-pub struct QueuedIter<'a>(arraydeque::Iter<'a, Queued>);
+pub struct QueuedIter<'a>(core::iter::Take<arraydeque::Iter<'a, Queued>>);
 
 impl<'a> Iterator for QueuedIter<'a> {
     type Item = &'a Queued;
